@@ -301,6 +301,19 @@ func (b *Bounds) LenAtLeast(x ssa.Value, at ssa.Instruction, t Term) bool {
 			}
 		}
 	}
+	// t is a count returned by a callee with a verified summary "count ≤ len(arg)" and arg is x re-sliced from a constant
+	// offset d ≥ t.K: count + t.K ≤ len(arg) + d ≤ len(x)
+	if t.V != nil && t.K > 0 {
+		if ex, ok := stripWiden(t.V).(*ssa.Extract); ok {
+			if c, ok := ex.Tuple.(*ssa.Call); ok {
+				if s, ok := b.Summaries[CalleeName(c)]; ok && s.Ret == ex.Index && b.onNilErrEdge(c, at) {
+					if d, ok := b.lenSlack(Arg(c, s.Param), x); ok && d >= t.K {
+						return true
+					}
+				}
+			}
+		}
+	}
 	// t is a count returned by a callee with a verified summary "count ≤ len(arg)" and arg is x or a sub-slice of x
 	if t.V != nil && t.K <= 0 {
 		if ex, ok := stripWiden(t.V).(*ssa.Extract); ok {
@@ -680,10 +693,12 @@ func (b *Bounds) ValueAtLeast(v ssa.Value, k int64, at ssa.Instruction) bool {
 				}
 			}
 			if !b.ValueAtLeast(e, k, pred.Instrs[len(pred.Instrs)-1]) {
-				return false
+				return b.valueGuards(v, k, at) // not on every incoming edge: a guard on the φ itself may still decide (switch on the size)
 			}
 		}
-		return len(x.Edges) > 0
+		if len(x.Edges) > 0 {
+			return true
+		}
 	case *ssa.Extract:
 		if c, ok := x.Tuple.(*ssa.Call); ok {
 			// a result of a helper analysed as part of this function: decided at the helper's own nil-error returns
@@ -720,7 +735,11 @@ func (b *Bounds) ValueAtLeast(v ssa.Value, k int64, at ssa.Instruction) bool {
 			return true
 		}
 	}
-	// guards v ≥ T / v > T
+	return b.valueGuards(v, k, at)
+}
+
+// valueGuards: v ≥ k follows from a dominating guard v ≥ T / v > T / v == T with constant T.
+func (b *Bounds) valueGuards(v ssa.Value, k int64, at ssa.Instruction) bool {
 	for _, c := range b.guardFacts(at) {
 		var other ssa.Value
 		op := c.Op
@@ -888,6 +907,27 @@ func (b *Bounds) ValueAtMost(v ssa.Value, t Term, at ssa.Instruction) bool {
 }
 
 // lenLE: len(a) ≤ len(b) structurally (a is b, or a = b[lo:] / a = b[lo:hi] with hi ≤ len(b) required elsewhere).
+// lenSlack: a is bb re-sliced from constant low bounds; returns their sum d, so that len(a) ≤ len(bb) − d.
+func (b *Bounds) lenSlack(a, bb ssa.Value) (int64, bool) {
+	d := int64(0)
+	for i := 0; i < 6; i++ {
+		if sameSlice(a, bb) {
+			return d, true
+		}
+		s, ok := a.(*ssa.Slice)
+		if !ok {
+			return 0, false
+		}
+		if s.Low != nil {
+			if k, isK := ConstInt(s.Low); isK && k >= 0 {
+				d += k
+			}
+		}
+		a = s.X
+	}
+	return 0, false
+}
+
 func (b *Bounds) lenLE(a, bb ssa.Value) bool {
 	for i := 0; i < 6; i++ {
 		if sameSlice(a, bb) {
